@@ -110,8 +110,51 @@ def run(tier, seed, replay):
             ndis += 1
             if first is None:
                 first = bad
+    # Krylov integrator: vectors built by the Lanczos recursion and the "no step bound" decision, on Hamiltonians with k
+    # distinct eigenvalues (the Krylov space of a generic vector closes after k vectors), against Qv.C10.stepUnbounded
+    klines, kexp = [], []
+    for _ in range(12 if tier == "quick" else 60):
+        N_ = int(rng.integers(3, 7))
+        k_ = int(rng.integers(1, N_ + 1))
+        kd_ = int(rng.integers(1, N_))
+        ev_ = np.concatenate([np.arange(1, k_ + 1) * 0.7, rng.choice(np.arange(1, k_ + 1) * 0.7, N_ - k_)])
+        Uk_ = qutip.rand_unitary(N_, seed=int(rng.integers(1 << 30)))
+        Hk_ = Uk_ * qutip.Qobj(np.diag(ev_)) * Uk_.dag()
+        pk_ = qutip.rand_ket(N_, seed=int(rng.integers(1 << 30)))
+        try:
+            with warnings.catch_warnings():
+                warnings.simplefilter("ignore")
+                with core.time_limit(120):
+                    sk_ = qutip.SESolver(Hk_, options={"method": "krylov", "krylov_dim": kd_, "progress_bar": ""})
+                    prepared_unbounded = bool(np.isinf(sk_._integrator._max_step))
+                    tri_, _b = sk_._integrator._lanczos_algorithm(pk_.data)
+                    sk_.start(pk_, 0.0)
+                    set_unbounded = bool(np.isinf(sk_._integrator._max_step))
+        except core.CaseTimeout:
+            raise
+        except Exception as e:
+            if isinstance(e, ValueError) and "the error with the minimum step" in str(e):
+                rep.count("krylov-decision-refused")      # the integrator declines: this dimension cannot meet the tolerance
+                continue
+            kexp.append(None)
+            klines.append("C10.krylov_decision " + json.dumps({"small": [j >= k_ - 1 for j in range(N_ + 1)], "kd": kd_, "N": N_}))
+            rep.broken.append({"kind": "krylov-decision-raises", "what": f"{type(e).__name__}: {e}"[:200], "eigenvalues": k_, "krylov_dim": kd_, "N": N_})
+            continue
+        rep.count("krylov-decision")
+        rep.case({"krylov": [N_, k_, kd_]}, k_ <= kd_)
+        klines.append("C10.krylov_decision " + json.dumps({"small": [j >= k_ - 1 for j in range(N_ + 1)], "kd": kd_, "N": N_}))
+        kexp.append({"count": int(tri_.shape[0]), "prepared": prepared_unbounded, "set_state": set_unbounded, "N": N_, "distinct_eigenvalues": k_, "krylov_dim": kd_})
+    kmodel = core.run_driver(klines)
+    for ln_, ex_, m_ in zip(klines, kexp, kmodel):
+        if ex_ is None:
+            ndis += 1
+            continue
+        if not isinstance(m_, dict) or "error" in m_ or m_["count"] != ex_["count"] or m_["unbounded"] != ex_["prepared"] or m_["unbounded"] != ex_["set_state"]:
+            ndis += 1
+            if first is None:
+                first = {"op": "C10.krylov_decision", "model": m_, "impl": ex_}
     rep.notes["correspondence_disagreements"] = ndis
-    rep.notes["correspondence_lines"] = len(lines)
+    rep.notes["correspondence_lines"] = len(lines) + len(klines)
     if ndis:
         rep.broken.append({"kind": "correspondence", "count": ndis, "first": first})
     # ------------------------------------------------------------------ oracle: routes
